@@ -1216,10 +1216,35 @@ class SM:
 
     @property
     def data(self):
+        if self.format in ("csr", "csc"):
+            return self._compressed()[0]
         out = _np.empty(self.shape[0], dtype=object)
         for i in range(self.shape[0]):
             out[i] = [self.entries[(i, j)] for j in sorted(j for (r, j) in self.entries if r == i)]
         return out
+
+    # compressed-format views (csr: row-major, csc: column-major; minor indices ascending), as scipy exposes them
+    def _compressed(self):
+        major = 0 if self.format == "csr" else 1
+        keys = sorted(self.entries, key=lambda k: (k[major], k[1 - major]))
+        data = SA(_np.array([self.entries[k] for k in keys] + [None], dtype=object)[:-1], self.kind)
+        indices = _np.array([k[1 - major] for k in keys], dtype=_np.int32)
+        indptr = _np.zeros(self.shape[major] + 1, dtype=_np.int32)
+        for k in keys:
+            indptr[k[major] + 1] += 1
+        return data, indices, _np.cumsum(indptr).astype(_np.int32)
+
+    @property
+    def indices(self):
+        if self.format not in ("csr", "csc"):
+            raise AttributeError("indices")
+        return self._compressed()[1]
+
+    @property
+    def indptr(self):
+        if self.format not in ("csr", "csc"):
+            raise AttributeError("indptr")
+        return self._compressed()[2]
 
     def pattern(self):
         return sorted(self.entries)
@@ -1318,6 +1343,19 @@ class SM:
 def _coo(arg1, shape=None, fmt="csr", **k):
     if isinstance(arg1, SM):
         return SM(arg1.shape, arg1.entries, fmt, arg1.kind)
+    if isinstance(arg1, tuple) and len(arg1) == 3:
+        # (data, indices, indptr): compressed rows (csr) or columns (csc)
+        data, indices, indptr = arg1
+        vals = _obj(data)
+        indices, indptr = _np.asarray(indices), _np.asarray(indptr)
+        if shape is None:
+            raise Unsupported("compressed sparse constructor without shape")
+        entries = {}
+        for major in range(len(indptr) - 1):
+            for p in range(int(indptr[major]), int(indptr[major + 1])):
+                key = (major, int(indices[p])) if fmt == "csr" else (int(indices[p]), major)
+                entries[key] = (entries[key] + vals[p]) if key in entries else vals[p]
+        return SM(shape, entries, fmt, "c" if kind_of(data) == "c" else "f")
     values, (rows, cols) = arg1
     vkind = kind_of(values)
     vals = _obj(values)
